@@ -581,6 +581,26 @@ pub fn gen_history(r: &mut Rng, check: &str, seed: u64, hc: &HistoryCfg) -> Scen
     }
 }
 
+/// More index hunks than one index subdirectory holds (10 000): only reachable with a tree
+/// of that many entries, so it is a scenario of its own, run for one seed in about 1 500.
+pub fn many_hunks(check: &str, seed: u64) -> Scenario {
+    use crate::tree::{EditOp, Meta};
+    let meta = Meta { mode: 0o644, mtime: (1_600_000_000, 0), uid: 0, gid: 0 };
+    let mut opts = crate::world::Opts::default();
+    opts.max_entries_per_hunk = 1;
+    Scenario {
+        check: check.into(),
+        seed,
+        env: crate::world::Env::default(),
+        root_meta: Meta { mode: 0o755, mtime: (1_600_000_000, 0), uid: 0, gid: 0 },
+        steps: vec![
+            Step::Edit(vec![EditOp::BulkEmptyFiles { dir: "/".into(), prefix: "f".into(), count: 10_003 + (seed % 5) as u32, meta }]),
+            Step::Backup { opts, plan: crate::sim::FaultPlan::none() },
+        ],
+        params: serde_json::json!({"many_hunks": true}),
+    }
+}
+
 /// Archives written by Conserve 0.6.0-0.6.3 have tails without `index_hunk_count`. After some
 /// of the completed backups of a history, rewrite the tail that way (band ids are predicted as
 /// in `gen_history`; a step naming a tail that does not exist does nothing).
